@@ -280,6 +280,27 @@ pub fn extent(geo: &dyn Geo, rng: &mut Xo) -> f64 {
     }
 }
 
+/// `dst` with every rotational component (SO(2), SO(3)) replaced by `src`'s, bit for bit: the
+/// two states then differ by a pure translation. None when the space has no rotational
+/// component or nothing changes.
+pub fn share_rotation(spec: &SpaceSpec, src: &[f64], dst: &[f64]) -> Option<St> {
+    let mut out = dst.to_vec();
+    let mut off = 0;
+    let mut any = false;
+    for c in layout(spec) {
+        if matches!(c, Comp::SO2 | Comp::SO3) {
+            out[off..off + c.width()].copy_from_slice(&src[off..off + c.width()]);
+            any = true;
+        }
+        off += c.width();
+    }
+    if any && out != dst {
+        Some(out)
+    } else {
+        None
+    }
+}
+
 /// A state at distance `dist` from `c` (in a random direction), if the space is large enough.
 pub fn point_at(geo: &dyn Geo, rng: &mut Xo, c: &[f64], dist: f64) -> Option<St> {
     for _ in 0..40 {
@@ -429,6 +450,16 @@ pub fn build_world(geo: &mut Box<dyn Geo>, rng: &mut Xo, ext: f64, family: &'sta
                 Some(p) => p,
                 None => return open(geo, rng, "open"),
             };
+            // a fifth of the time a pure-translation task: the far point carries the centre's
+            // rotational components bit for bit (as long as it stays clear of the wall)
+            let mut far = far;
+            if rng.chance(0.2) {
+                if let Some(f2) = share_rotation(geo.spec(), &c, &far) {
+                    if geo.d(&c, &f2) > r_out + 0.02 * ext && geo.in_bounds(&f2) {
+                        far = f2;
+                    }
+                }
+            }
             let mut door = None;
             if family == "shell_door" {
                 if let Some(dc) = point_at(&**geo, rng, &c, 0.5 * (r_in + r_out)) {
@@ -861,6 +892,17 @@ pub fn base(rng: &mut Xo, prop: &str, seed: u64, index: u64, o: &GenOpts) -> Sce
     }
     if wb.family == "workspace" && o.goal_sampler.is_none() {
         sampler = *rng.pick(&[GoalSampler::Reflect, GoalSampler::Reflect, GoalSampler::Harness]);
+    }
+    // pure-translation task: the goal target carries the start's rotational components bit for
+    // bit (start and every Fixed goal sample then have identical orientation)
+    let mut wb = wb;
+    if !wb.sealed && !wb.start_invalid && wb.goal_comp.is_none() && rng.chance(0.08) {
+        if let Some(t2) = share_rotation(&space, &wb.start, &wb.target) {
+            geo.set_worlds(&[wb.world.clone()]);
+            if geo.valid(0, &t2) && geo.in_bounds(&t2) && geo.d(&wb.start, &t2) > 0.0 {
+                wb.target = t2;
+            }
+        }
     }
     // legal but non-canonical start: SO(2) components off by whole turns (the state types have
     // public fields and every space primitive accepts any angle)
